@@ -129,6 +129,10 @@ impl pl::PlFold for Resolver<'_> {
                             if value.lineage.is_none() {
                                 if let Some(value_id) = value.id {
                                     if !self.inlined_values.insert(value_id) {
+                                        // (also the nodes below it: the fields
+                                        // of a tuple are columns too)
+                                        value.kind =
+                                            IdRefresher(self).fold_expr_kind(value.kind)?;
                                         value.id = None;
                                     }
                                 }
@@ -218,6 +222,23 @@ impl pl::PlFold for Resolver<'_> {
             },
         };
         self.finish_expr_resolve(r, id, *alias, *span)
+    }
+}
+
+/// Gives the nodes of a resolved value new ids.
+struct IdRefresher<'a, 'b>(&'a mut Resolver<'b>);
+
+impl pl::PlFold for IdRefresher<'_, '_> {
+    fn fold_expr(&mut self, mut expr: pl::Expr) -> Result<pl::Expr> {
+        expr.kind = self.fold_expr_kind(expr.kind)?;
+        if let Some(old_id) = expr.id {
+            let id = self.0.id.gen();
+            if let Some(span) = self.0.root_mod.span_map.get(&old_id).copied() {
+                self.0.root_mod.span_map.insert(id, span);
+            }
+            expr.id = Some(id);
+        }
+        Ok(expr)
     }
 }
 
